@@ -56,6 +56,10 @@ func c15Fields() (times, wdays, days, months, years, locs []c15Spec) {
 		{days: "['15:-14']", rDays: [][2]int{{15, -14}}},
 		{days: "['1:-1']", rDays: [][2]int{{1, -1}}},
 		{days: "['29', '-30:-29']", rDays: [][2]int{{29, 29}, {-30, -29}}},
+		// a range that lies beyond the end of a short month, listed BEFORE ranges that still apply
+		{days: "['31', '15']", rDays: [][2]int{{31, 31}, {15, 15}}},
+		{days: "['29:31', '1:3']", rDays: [][2]int{{29, 31}, {1, 3}}},
+		{days: "['30:31', '-1']", rDays: [][2]int{{30, 31}, {-1, -1}}},
 	}
 	months = []c15Spec{
 		{},
@@ -68,6 +72,7 @@ func c15Fields() (times, wdays, days, months, years, locs []c15Spec) {
 		{},
 		{years: "['2024:2025']", rYears: [][2]int{{2024, 2025}}},
 		{years: "['2024']", rYears: [][2]int{{2024, 2024}}},
+		{years: "['2011', '2025']", rYears: [][2]int{{2011, 2011}, {2025, 2025}}},
 	}
 	for _, l := range []string{"", "UTC", "America/New_York", "Europe/Berlin", "Australia/Lord_Howe", "Asia/Kolkata", "Pacific/Apia"} {
 		locs = append(locs, c15Spec{loc: l})
@@ -206,9 +211,11 @@ func TestVerifC15(t *testing.T) {
 	thorough := rep.Thorough()
 	// ---- instants ------------------------------------------------------------------------------
 	var instants []int64
-	gridStep := int64(13 * 60)
+	gridStep := int64(37 * 60)
+	around := int64(120) // minutes on each side of a zone transition
 	if thorough {
 		gridStep = 3 * 60
+		around = 180
 	}
 	from := time.Date(2023, 12, 25, 0, 0, 0, 0, time.UTC).Unix()
 	to := time.Date(2025, 3, 5, 0, 0, 0, 0, time.UTC).Unix()
@@ -234,7 +241,7 @@ func TestVerifC15(t *testing.T) {
 			_, off := time.Unix(u, 0).In(loc).Zone()
 			if off != prev {
 				ntrans++
-				for m := int64(-180); m <= 180; m++ {
+				for m := -around; m <= around; m++ {
 					instants = append(instants, u+m*60)
 				}
 			}
@@ -373,8 +380,8 @@ func TestVerifC15(t *testing.T) {
 	R.AddKey("true")
 	R.AddKey("false")
 	R.Exhaustive = !timedOut
-	R.Bound = fmt.Sprintf("full product of field alphabets: %d time x %d weekday x %d day-of-month x %d month x %d year x %d location specs = %d, x %d instants (grid of %d min over 2023-12-25..2025-03-05, +-3h minute grid around %d zone transitions, the 2011 Apia date-line skip); each (spec, instant) through ContainsTime(UTC value) and through Intervener.Mutes with the instant carried in Asia/Tokyo, America/New_York, +05:30 (quick: one of the three per instant)",
-		len(fT), len(fW), len(fD), len(fM), len(fY), len(fL), len(fT)*len(fW)*len(fD)*len(fM)*len(fY)*len(fL), len(instants), gridStep/60, ntrans)
+	R.Bound = fmt.Sprintf("full product of field alphabets: %d time x %d weekday x %d day-of-month x %d month x %d year x %d location specs = %d, x %d instants (grid of %d min over 2023-12-25..2025-03-05, minute grid of +-%dmin around %d zone transitions, the 2011 Apia date-line skip); each (spec, instant) through ContainsTime(UTC value) and through Intervener.Mutes with the instant carried in Asia/Tokyo, America/New_York, +05:30 (quick: one of the three per instant)",
+		len(fT), len(fW), len(fD), len(fM), len(fY), len(fL), len(fT)*len(fW)*len(fD)*len(fM)*len(fY)*len(fL), len(instants), gridStep/60, around, ntrans)
 	R.Extra["family"] = map[string]any{"specs_this_shard": nspec, "instants": len(instants), "evaluations_true": trueCount, "specs_rejected_by_parser": rejected}
 	R.Sample(map[string]any{"spec": "times: [{start_time: '09:00', end_time: '17:00'}]; days_of_month: ['-3:-1']; location: 'Australia/Lord_Howe'", "instants": len(instants)})
 	R.Write()
